@@ -2087,10 +2087,10 @@ def decide_on_values(pe, text, env, rep=None, generic=True):
             if v.op == "sym" and v.payload in rep:
                 return Fraction(rep[v.payload])
             syms = dag.symbols(v)
-            if syms and syms <= set(rep):
-                # an expression of symbols that all have representatives takes the value of the expression at the representatives
+            if syms <= set(rep) | {"pi"}:
+                # a closed-form constant (log 2, a root), or an expression of symbols that all have representatives takes the value of the expression at the representatives
                 try:
-                    c = dag.as_const(dag.substitute(v, {s_: Fraction(rep[s_]) for s_ in syms}))
+                    c = dag.as_const(dag.substitute(v, {s_: Fraction(rep[s_]) for s_ in syms if s_ in rep}))
                 except Exception:
                     c = None
                 if c is not None:
@@ -2100,7 +2100,7 @@ def decide_on_values(pe, text, env, rep=None, generic=True):
                     import mpmath
 
                     unk = set()
-                    z = numeval.evaluate(v, {s_: mpmath.mpf(rep[s_].numerator) / rep[s_].denominator for s_ in syms}, uninterpreted=unk)
+                    z = numeval.evaluate(v, {s_: mpmath.mpf(Fraction(rep[s_]).numerator) / Fraction(rep[s_]).denominator for s_ in syms if s_ in rep}, uninterpreted=unk)
                     if not unk and abs(mpmath.im(z)) < 1e-30:
                         return Fraction(str(mpmath.nstr(mpmath.re(z), 30)))
                 except Exception:
@@ -2119,6 +2119,14 @@ def decide_on_values(pe, text, env, rep=None, generic=True):
     def val(n):
         if isinstance(n, ast.Constant) and isinstance(n.value, (int, float)) and not isinstance(n.value, bool):
             return Fraction(n.value)
+        if rep and isinstance(n, (ast.BinOp, ast.Call, ast.UnaryOp)):
+            # the whole operand evaluated by the evaluator and taken at the representatives (real parts, logarithms, products of them)
+            try:
+                whole_ = conv(pe.eval(n, env))
+                if isinstance(whole_, Fraction):
+                    return whole_
+            except Exception:
+                pass
         if isinstance(n, (ast.Name, ast.Attribute, ast.Subscript)):
             if isinstance(n, ast.Name) and n.id in rep:
                 return Fraction(rep[n.id])
